@@ -229,7 +229,9 @@ Answer(c, sid, r, f, kind) ==
                           [] kind = "unprepared" -> IF phase >= 2 THEN w2                      \* session.submit(_reprepare, ..)
                                                     ELSE [w2 EXCEPT !.hs = H!Submit(@, TRep(r, h))])
             ELSE \* the PREPARE's handler: session.submit(_execute_after_prepare, host, connection, pool, response); the
-                 \* connection stays borrowed until that task runs
+                 \* connection stays borrowed until that task runs.  INTENDED: the task is told the connection the PREPARE
+                 \* travelled on.  (The pinned code tells it the connection of the EXECUTE that was answered UNPREPARED,
+                 \* which differs once the pool was renewed: findings/C09_reprepare_returns_the_wrong_connection.py.)
                  Commit(IF phase >= 2 THEN [w2 EXCEPT !.cn[c].hold = @ + 1]
                         ELSE [w2 EXCEPT !.cn[c].hold = @ + 1, !.hs = H!Submit(@, TAfter(r, c, h, kind))])
        ELSE \* the request timed out meanwhile: the answer releases the id, nobody is told (an id that was not
@@ -500,6 +502,9 @@ PoolsAndConns ==
         /\ cs.pools[1][h] = "open" => \E c \in InstOf(conns, h) : conns[c].open
         /\ cs.pools[1][h] = "none" => InstOf(conns, h) = {}
         /\ cs.pools[1][h] = "shut" => \A c \in InstOf(conns, h) : ~conns[c].open
+
+\* state constraint for an exhaustive run that leaves Cluster.shutdown to Hosts.tla's own check
+BeforeShutdown == phase = 0
 
 \* vacuity witnesses (each must be violated = reachable)
 Witness_RetriedAfterKill == ~(\E r \in Reqs : rq[r].st = "done" /\ rq[r].out = "ok" /\ Len(rq[r].att) >= 2
